@@ -100,3 +100,14 @@ Theorem C01_verifier_marks_only_good_pieces : forall np r bits, run_verifier (np
   exists s e, nth_error (firstn (Z.to_nat np) (ver_pairs r)) i = Some (s, e) /\ s = false /\ e = true.
 Proof. exact verifier_marks_only_good_pieces. Qed.
 Print Assumptions C01_verifier_marks_only_good_pieces.
+
+(* piece writer + write-result gate over a disk that may refuse the write (files closed by a stop,
+   I/O error): a piece is marked Done / reported only if its buffer had the recorded hash and the
+   storage holds what was written from it; otherwise the storage is untouched (kind 104) *)
+From RainV Require Import WriteGate.
+Theorem C01_reported_piece_is_on_disk : forall (hash : list Z -> Z) H plen st secs buf d,
+  let r := pw_run hash H plen st secs buf d in
+  (marks_done r = true -> zlen buf = plen /\ hash buf = H /\ d = DiskOk /\ write_secs st secs buf = Ok (w_sto r)) /\
+  (marks_done r = false -> w_sto r = st).
+Proof. exact reported_piece_is_on_disk. Qed.
+Print Assumptions C01_reported_piece_is_on_disk.
